@@ -48,3 +48,9 @@ Proof. eexists. split; [vm_compute; reflexivity|]. reflexivity. Qed.
 Example ex_roundtrip :
   exists b, pack_msg ex_env ex_msg = Ok b /\ unpack_top ex_env 0 b = Ok ex_msg.
 Proof. eexists. split; [vm_compute; reflexivity|]. vm_compute. reflexivity. Qed.
+
+From PBC Require Import Impl.Canon.
+Example ex_env_ok : env_ok ex_env = true.
+Proof. vm_compute. reflexivity. Qed.
+Example ex_canon : canon_msg ex_env ex_msg = true.
+Proof. vm_compute. reflexivity. Qed.
